@@ -8,7 +8,7 @@ from .. import gens, refmodel
 RULE = ("Cases: (exhaustive) every phase sequence of length 1..L over the alphabet "
         "{0.1,1.5,3.1,4.7,6.2} (L=6 quick, 8 thorough) x return_good in {False,True}; "
         "(synth) Hypothesis-drawn long phases (2..400/3000 samples, 1-3 columns, variable/noisy/"
-        "reversing frequency) x phase_step in {pi/2, pi, 1.5pi, 1.9pi}; (short) element-wise drawn "
+        "reversing frequency, C / column-major / strided / read-only layout) x phase_step in {pi/2, pi, 1.5pi, 1.9pi}; (short) element-wise drawn "
         "phases of 1..30 samples. Oracle: wrap positions recomputed as |p[i]-p[i-1]|>phase_step; the "
         "labels must be -1 or 0..K-1 in temporal order, each label exactly one wrap-delimited segment; "
         "with return_good=False and >=1 wrap the labels must equal the partition (every sample "
@@ -65,7 +65,7 @@ def oracle(case, rec):
     kwargs = {} if 'step' not in case else {'phase_step': step}
     if np.any(np.abs(np.abs(np.diff(p2, axis=0)) - step) <= 1e-12):
         raise Discard('a phase difference equals phase_step exactly (docstring says "minimum value", code uses >)')
-    arg = p.copy()
+    arg = gens.relayout(p.copy(), case.get('layout', 'C'))
     try:
         out = emd.cycles.get_cycle_vector(arg, return_good=good, **kwargs)
     except Exception as e:
@@ -96,6 +96,8 @@ def oracle(case, rec):
             if not np.array_equal(np.asarray(single)[:, 0], out[:, c]):
                 raise Violation('C12/get_cycle_vector/column-dependence', 'column %d' % c)
     rec.cls('good' if good else 'all')
+    if 'layout' in case:
+        rec.cls('layout=' + case['layout'])
     rec.cls('nwraps=%s' % (nwraps if nwraps < 4 else '4+'))
     return nwraps >= 1
 
@@ -112,7 +114,7 @@ STEPS = [np.pi / 2, np.pi, 1.5 * np.pi, 1.9 * np.pi]
 
 def synth_strategy(max_n):
     return st.fixed_dictionaries({'p': gens.synth_phase(max_n=max_n), 'good': st.booleans(),
-                                  'step': st.sampled_from(STEPS)})
+                                  'step': st.sampled_from(STEPS), 'layout': st.sampled_from(gens.LAYOUTS)})
 
 
 short_strategy = st.fixed_dictionaries({'p': gens.short_phase(30), 'good': st.booleans(),
